@@ -679,6 +679,11 @@ func genNAct(r *gen.R, p engProfile, det bool, ruleIDs []int) eNAct {
 		a.V = gen.Field("-" + strconv.Itoa(1+r.Intn(3)))
 	case 5:
 		a.V = gen.Field(r.Pick("x", "1", "7", "abc"))
+		if p.acct > 0 && r.Chance(0.25) {
+			// the edges of the arithmetic: the int64 range (parsing, wrap-around), signs, text that is almost a number
+			a.V = gen.Field(r.Pick("9223372036854775807", "-9223372036854775808", "+9223372036854775807", "-9223372036854775807", "+9223372036854775808",
+				"9223372036854775808", "+-1", "--1", "+ 1", "+01", "-0", "+", "-", "+1x", "+tx.s"))
+		}
 	case 6:
 		if det {
 			a.V = gen.Field(r.Pick("%{matched_var}", "%{matched_var_name}", "v%{tx.s}", "+%{tx.n}", "%{args_get.a}"))
